@@ -647,3 +647,7 @@ impl From<Box<ScionScmpPacketView>> for Box<ScionRawPacketView> {
         value.into_raw()
     }
 }
+
+#[cfg(kani)]
+#[path = "/verif/kani/sciparse/c02_packet_view.rs"]
+mod verif_c02_packet_view;
